@@ -100,6 +100,13 @@ func build(entries []entry, scale int, prefix string, declaredBy map[string]int6
 				addRaw(w, name, data, uint64(e.Declared*scale))
 				declaredBy[filepath.Join(prefix, filepath.FromSlash(name))] = int64(e.Declared * scale)
 			}
+		case "dirchain":
+			// explicit directory entries and nothing in them: q<i>-0/, q<i>-0/q<i>-1/, ...
+			chain := ""
+			for d := 0; d < e.Dirs; d++ {
+				chain += fmt.Sprintf("q%d-%d/", i, d)
+				_, _ = w.CreateHeader(&zip.FileHeader{Name: chain, Method: zip.Store, Modified: time.Unix(1700000000, 0)})
+			}
 		case "fakezip":
 			name := fmt.Sprintf("%sfake%d.zip", dir, i)
 			data := bytes.Repeat([]byte("not a zip "), e.Actual*scale/10)
@@ -147,10 +154,19 @@ type disk struct {
 func measure(base afero.Fs, dest string) disk {
 	var d disk
 	_ = afero.Walk(base, dest, func(p string, info os.FileInfo, err error) error {
-		if err != nil || info == nil || info.IsDir() {
+		if err != nil || info == nil {
 			return nil
 		}
 		rel, _ := filepath.Rel(dest, p)
+		if info.IsDir() {
+			// a directory is an item of the tree too: it sits at the depth of its own path (never deeper than a file below it)
+			if rel != "." {
+				if n := strings.Count(filepath.ToSlash(rel), "/"); n > d.MaxDepth {
+					d.MaxDepth = n
+				}
+			}
+			return nil
+		}
 		d.Count++
 		d.Total += info.Size()
 		if info.Size() > d.MaxFile {
